@@ -43,6 +43,12 @@ def cases(tier, seed):
                 continue  # MatNet's one-hot column embedding needs embed_dim >= number of nodes (zoo networks are 32 wide)
             for r in range(2 if q else 10):
                 out.append(dict(policy=kind, env=env, n=n, m=6 if q else 8, s=rnd.randrange(10**6), wseed=r, extra=extra))
+    # envs / policies with their own embeddings or decode loops that the grid above does not reach: AM on the decap placement
+    # envs (synthetic PDN data), MatNet's multi-stage policy on the flexible flow shop (one encoder / decoder per stage)
+    for kind, env, extra in (("am", "dpp", dict(size=5, kmin=3, kmax=10, decaps=6)), ("am", "mdpp", dict(size=10, kmin=1, kmax=10, decaps=20, reward_type="minmax")),
+                             ("matnet_ffsp", "ffsp", dict(stages=2, mas=2, jobs=4, flatten=False)), ("matnet_ffsp", "ffsp", dict(stages=3, mas=2, jobs=5, flatten=False))):
+        for r in range(3 if q else 10):
+            out.append(dict(policy=kind, env=env, n=extra.get("size", 0) ** 2 or extra["jobs"] * extra["stages"], m=5 if q else 8, s=rnd.randrange(10**6), wseed=r, extra=extra))
     # mixture-of-experts encoder/decoder (MVMoE) with non-trivial gates
     for env in ("tsp", "cvrp", "mtvrp"):
         for n in ((6, 10) if q else (6, 10, 20)):
